@@ -78,22 +78,27 @@ def cfg_text(bounds, mech, invariants, spec, view=None, extra=""):
 # --------------------------------------------------------------------------- export (spec -> code)
 
 
-def export_ops(ctx, bounds, name="OpsCache (sequence export)"):
-    """All maximal sequences of SpecOps inside the bounds + instance data and expected matrices."""
+def export_ops(ctx, bounds, name="OpsCache (sequence export)", sample=None):
+    """Maximal sequences of SpecOps inside the bounds + instance data and expected matrices.
+    sample=None: all of them (exhaustive search); sample=N: about N random behaviours (TLC -simulate, seeded)."""
     cfg = cfg_text(bounds, REPAIRED, ["EmitSeq", "EmitExpected"], "SpecOps")
-    r = ctx.model_check("OpsCache", cfg, name=name, count=False, timeout=1500)
-    seqs, expect = [], {}
+    kw = {}
+    if sample:
+        # in simulation mode TLC evaluates the invariants on every successor of the last state: |QIds| leaves per trace
+        kw = dict(simulate=f"num={max(1, sample // len(bounds['QIds']))}", depth=bounds["MaxCalls"] + 1, workers=1)
+    r = ctx.model_check("OpsCache", cfg, name=name, count=False, timeout=1500, **kw)
+    seqs, expect = set(), {}
     for line in r.printed():
         if not line.startswith('"{'):
             continue
         d = json.loads(json.loads(line))
         if d["kind"] == "seq":
-            seqs.append((d["inst"], d["mode"], tuple(d["seq"])))
+            seqs.add((d["inst"], d["mode"], tuple(d["seq"])))
         else:
             expect[(d["inst"], d["mode"], d["q"])] = d
     if not seqs or not expect:
         raise core.MachineryFailure("OpsCache export produced nothing")
-    return seqs, expect
+    return sorted(seqs), expect
 
 
 # --------------------------------------------------------------------------- exact instances
@@ -507,7 +512,7 @@ def validate(ctx, traces, mech, invariants, what, count_impl=True, parts=4):
     if not traces:
         return set(), {}, 0.0
     cfg = trace_cfg(mech, invariants)
-    parts = max(1, min(parts, len(traces) // 40 or 1))
+    parts = max(1, min(parts, len(traces), sum(len(t["ev"]) for t in traces) // 300 or 1))
     bounds = [round(k * len(traces) / parts) for k in range(parts + 1)]
     from pathlib import Path
 
@@ -623,21 +628,22 @@ OPS_MUTANTS = (("MMask", "FixedRowsAreIdentity"), ("MBothHalves", "RefreshEquals
                ("MFreshLinks", "RefreshEqualsRebuild"), ("MFixPsi", "NoOtherRowPinned"))
 
 
-def ops_level(ctx, pid, invariants, rnd, nsample):
+def ops_level(ctx, pid, invariants, rnd, nsample, mutants=None, short=4):
     """The cache: TLC decides the clauses on SpecOps; modelled mutants of the refresh path must violate them
     (design canaries); sequences are exported for the replay.  Returns replay jobs."""
     quick = ctx.quick
     full = dict(OPS_DEFAULT, QIds=[1, 2, 3, 4] if quick else [1, 2, 3, 4, 5, 6, 7, 8], MaxCalls=6)
     ctx.cov["bounds"]["OpsCache/SpecOps"] = full
-    model_check(ctx, full, REPAIRED, invariants, "SpecOps", "ViewOps", f"OpsCache/SpecOps[{pid}]",
-                required=["OpsBuild", "OpsRefresh"])
     small = dict(OPS_DEFAULT, QIds=[1, 2, 3], MaxCalls=3)
     # (alphabet, length, how many of the maximal sequences are replayed: None = all)
-    plan = ([([1, 2, 3], 4, None), ([1, 2, 3, 4], 6, nsample)] if quick else
-            [([1, 2, 3], 6, None), ([1, 2, 3, 4], 5, None), ([3, 4, 5, 6, 7, 8], 6, nsample)])
-    thunks = [lambda q=q, n=n: export_ops(ctx, dict(full, QIds=q, MaxCalls=n),
-                                          name=f"OpsCache (export, configurations {q}, length {n})") for q, n, _ in plan]
-    for switch, inv in OPS_MUTANTS:
+    plan = ([(full["QIds"], 1, None), ([1, 2, 3], short, None), ([1, 2, 3, 4], 6, nsample)] if quick else
+            [(full["QIds"], 1, None), ([1, 2, 3], 6, None), ([1, 2, 3, 4], 5, None), ([3, 4, 5, 6, 7, 8], 6, nsample)])
+    thunks = [lambda q=q, n=n, t=t: export_ops(ctx, dict(full, QIds=q, MaxCalls=n), sample=t,
+                                               name=f"OpsCache (export, configurations {q}, length {n}, "
+                                                    f"{'all' if t is None else 'random sample'})") for q, n, t in plan]
+    thunks.append(lambda: model_check(ctx, full, REPAIRED, invariants, "SpecOps", "ViewOps", f"OpsCache/SpecOps[{pid}]",
+                                      required=["OpsBuild", "OpsRefresh"]))
+    for switch, inv in (mutants or OPS_MUTANTS):
         thunks.append(lambda switch=switch, inv=inv: ctx.model_check(
             "OpsCache", cfg_text(small, dict(REPAIRED, **{switch: False}), [inv], "SpecOps", view="ViewOps"),
             name=f"OpsCache/SpecOps[modelled mutant {switch}=FALSE must violate {inv}]", expect_violation=inv, count=False))
@@ -645,14 +651,12 @@ def ops_level(ctx, pid, invariants, rnd, nsample):
     seqs, expect, exported = [], {}, 0
     for (q, n, take), (sq, ex) in zip(plan, res):
         exported += len(sq)
-        sq.sort()                       # TLC prints in worker order: make the seeded sample reproducible
-        if take is not None:
-            rnd.shuffle(sq)
-            sq = sq[:take]
         seqs += sq
         expect.update(ex)
+    seqs = sorted(set(seqs))
     ctx.cov["behaviours_exported"] = exported
-    ctx.cov["replay_plan"] = [dict(configurations=q, length=n, replayed=("all" if t is None else t)) for q, n, t in plan]
+    ctx.cov["replay_plan"] = [dict(configurations=q, length=n, replayed=("all" if t is None else f"random sample ~{t}"))
+                              for q, n, t in plan]
     ctx.cov["behaviours_replayed"] = len(seqs)
     ctx.cov["exhaustive"] = False
     jobs = ops_jobs(seqs, expect, chunk=60 if quick else 400)
